@@ -1,8 +1,9 @@
 """Property -> rules.  Each property's check runs the listed rules; the texts go into the evidence."""
-from .rules import tab
+from .rules import tab, enc
 
 RULESETS = {}
 RULESETS.update(tab.RULES)
+RULESETS.update(enc.RULES)
 
 PROPS = {}
 
@@ -18,5 +19,5 @@ BASE_ASSUMPTIONS = [
     "the reference tables under cocoverif/refs (MC6809 datasheet, CoCo tape format, Disk BASIC geometry) are transcribed correctly",
 ]
 
-prop("C01", ["TAB-1", "TAB-3", "TAB-4"], "x", "y")
+prop("C01", ["TAB-1", "TAB-3", "TAB-4", "ENC-1", "ENC-2", "ENC-3", "ENC-4", "ENC-6"], "x", "y")
 NOT_APPLICABLE = {}
